@@ -16,10 +16,10 @@
 /* ---------------------------------------------------------------- reporting */
 static const char *lg_profile = "total";
 #define LG_MAX_PER_KEY 1
-/* ares_buf_split(ALLOW_BLANK|NO_DUPLICATES) is exercised in one of this many eligible split calls only
- * (0 = never): on the pinned tree two blank sections make it pass NULL to memcmp (UBSan abort),
- * which would otherwise kill a large share of the workers; see known_findings.d/legacy.json */
-static unsigned lg_nodup_blank_rate = 20000;
+/* ares_buf_split(ALLOW_BLANK|NO_DUPLICATES) is exercised in one of this many eligible split calls
+ * (1 = always, 0 = never).  Before fix 16695cc two blank sections made it pass NULL to memcmp (UBSan
+ * abort in most workers); --opt nodup_blank_rate=N restores a low rate when checking such a tree. */
+static unsigned lg_nodup_blank_rate = 1;
 /* 0: leave out the bin == NULL / s == NULL variants of ares_buf_parse_dns_binstr / ares_expand_string
  * (they leak on the pinned tree, see known_findings.d/legacy.json; a libFuzzer process stops at its
  * first report, so the fuzz target leaves them to the deterministic profile) */
